@@ -65,6 +65,52 @@ func outline(syms []decoder.Symbol, indent string, out *[]string) {
 	*out = append(*out, lines...)
 }
 
+// refConstraintAttrs are the attributes of the dual schema whose constraint is a
+// Reference (directly or inside one-of / list / map / object).
+var refConstraintAttrs = map[string]bool{"of": true, "ofres": true, "one": true, "lst": true, "mp": true, "ob": true, "dep": true}
+
+// escapedIndexUnderReference reports whether every address in missing (with its
+// multiplicity) is a reference with a string index step - which JSON has to
+// escape - written under a Reference constraint.
+func escapedIndexUnderReference(items []gen.DualItem, missing []string) bool {
+	under := map[string]int{}
+	var walkV func(v *gen.DualValue)
+	walkV = func(v *gen.DualValue) {
+		if v == nil {
+			return
+		}
+		if v.Kind == "ref" || v.Kind == "bare" {
+			under[v.Ref]++
+		}
+		for i := range v.Elems {
+			walkV(&v.Elems[i])
+		}
+	}
+	var walk func(its []gen.DualItem)
+	walk = func(its []gen.DualItem) {
+		for _, it := range its {
+			if it.Kind == "attr" && refConstraintAttrs[it.Name] {
+				walkV(it.Value)
+			}
+			walk(it.Body)
+		}
+	}
+	walk(items)
+	need := map[string]int{}
+	for _, a := range missing {
+		if !strings.Contains(a, `["`) {
+			return false
+		}
+		need[a]++
+	}
+	for a, n := range need {
+		if under[a] < n {
+			return false
+		}
+	}
+	return len(missing) > 0
+}
+
 func checkC19(c C19Case) Result {
 	var r Result
 	mk := func(f m.FileM) (*world.World, *PanicInfo) {
@@ -125,7 +171,12 @@ func checkC19(c C19Case) Result {
 	r.Evals += len(an)
 	if strings.Join(an, "\n") != strings.Join(aj, "\n") {
 		onlyN, onlyJ := diffSorted(an, aj)
-		r.Fail("origins-differ", "reference origin addresses differ between native and JSON syntax\n only native: %v\n only JSON:   %v\n%s", onlyN, onlyJ, show())
+		sig := "origins-differ"
+		if len(onlyJ) == 0 && escapedIndexUnderReference(c.Items, onlyN) {
+			// (a finding of its own: the existing suite pins it, see known_findings.json)
+			sig = "origins-differ:json-escaped-string-index-under-reference-constraint"
+		}
+		r.Fail(sig, "reference origin addresses differ between native and JSON syntax\n only native: %v\n only JSON:   %v\n%s", onlyN, onlyJ, show())
 	} else {
 		anyType := "/" + typeStr(cty.DynamicPseudoType)
 		for _, o := range oj {
